@@ -145,6 +145,7 @@ func (wg *WeightedAuthorizationModelGraph) AssignWeights() error {
 		verifObserveRoot(wg, node)
 
 		tupleCyles, err := wg.calculateNodeWeight(node, visited, ancestorPath, tupleCycleDependencies)
+		verifObserveWeightStep(wg, "root", node, nil, tupleCyles, err)
 		if err != nil {
 			return err
 		}
@@ -339,6 +340,7 @@ func (wg *WeightedAuthorizationModelGraph) calculateNodeWeight(nodeID string, vi
 		}
 
 		tcycle, err := wg.calculateEdgeWeight(edge, ancestorPath, visited, tupleCycleDependencies)
+		verifObserveWeightStep(wg, "edge", nodeID, edge, tcycle, err)
 		wg.calculateEdgeWildcards(edge)
 		wg.addEdgeWildcardsToNode(nodeID, edge)
 		if err != nil {
@@ -366,6 +368,7 @@ func (wg *WeightedAuthorizationModelGraph) calculateEdgeWeight(edge *WeightedAut
 	// calculate the weight of the node that is connected to the edge
 	ancestorPath = append(ancestorPath, edge)
 	tupleCycle, err := wg.calculateNodeWeight(edge.to.uniqueLabel, visited, ancestorPath, tupleCycleDependencies)
+	verifObserveWeightStep(wg, "node", edge.to.uniqueLabel, nil, tupleCycle, err)
 	if err != nil {
 		return tupleCycle, err
 	}
